@@ -1,5 +1,6 @@
 """C10 -- reference-counted and pooled objects are released exactly once, never early
 (util/RefCount.h, util/ObjectPool.h)."""
+import json
 import vlib
 
 S = 4          # stack slots per thread
@@ -131,7 +132,7 @@ class CHECK(vlib.Check):
             "_maxPoolSize 0..4; after EVERY operation the destruction/recycle/obtain events in order, every object's state, "
             "count, payload, members and birth/death counters, the stack, and the pool's slab order, free lists, "
             "_numNodesInUse, _nextIndex arrays and _curPoolSize are compared with the extracted model; the harness's own "
-            "ideal reference graph is the oracle.  Multi-threaded histories (2-3 worker threads started with copies of the main thread's references, random programs x random and exhaustive schedules) run under the controlled scheduler (decision points: the AtomicCounter increment/decrement and Mutex lock hooks); the sequence (thread resumed, atomic step executed) and the complete final state must equal the model's run of the same schedule.  Non-trivial = the history stores into a member slot and later drops or "
+            "ideal reference graph is the oracle.  Multi-threaded histories (2-3 worker threads started with copies of the main thread's references, random programs x random and exhaustive schedules) run under the controlled scheduler (decision points: the AtomicCounter increment/decrement and Mutex lock hooks); the sequence (thread resumed, atomic step executed) the counts of all objects each time a thread parks before an atomic operation, and the complete final state must equal the model's run of the same schedule (deterministic: one thread runs at a time, every decision comes from the case text).  Non-trivial = the history stores into a member slot and later drops or "
             "overwrites a reference (so a release can cascade), or obtains from the pool more objects than one slab holds.") % (S, K)
 
     def gen_cases(self, rng, tier):
@@ -146,13 +147,6 @@ class CHECK(vlib.Check):
         # multi-threaded histories under the controlled scheduler: random programs x random schedules
         for i in range(250 if tier == "quick" else 4000):
             out.append(("sched-random", sched_case(rng)))
-        # free-running threads (no scheduler): the same kind of programs, repeated; ASan watches, end-state oracle only
-        for i in range(8 if tier == "quick" else 60):
-            N = rng.choice([1, 2, 3]); mx = rng.choice([0, 1, 3]); T = rng.choice([2, 3, 4])
-            kind = rng.choice(["np", "nh"])
-            setup = chain(kind, rng.choice([1, 2, 3]), 0, 1, rng.randrange(K)) + ["np:2"]
-            workers = [[o for o in gen_worker(rng, rng.choice([4, 8, 12])) if not o.startswith("al:")] for _ in range(T)]
-            out.append(("stress", "M%d:%d:%d:%d|%s" % (N, mx, S, 200 if tier == "quick" else 2000, "/".join([";".join(setup)] + [";".join(w) for w in workers]))))
         # every schedule (all 2^9 decision strings) of two workers that drop / copy / advance on a shared chain
         for progs in ("np:0;np:1;as:m0.0:s1;rs:s1/rs:s0/as:s0:m0.0;rs:s0/rs:s0",
                       "nh:0/rs:s0/as:s1:s0;rs:s0;rs:s1/cc:s1:s0;rs:s1;rs:s0",
@@ -196,31 +190,47 @@ class CHECK(vlib.Check):
         return out
 
     def nontrivial(self, case):
-        if case.startswith("S") or case.startswith("M"):
-            return case.count("/") >= 2
+        if case.startswith("S"):
+            return case.count("/") >= 3
         body = case.split("|", 1)[1]
         ops = body.split(";")
         stores = any(o.startswith(("as:m", "cc:m", "sw:m", "al:m")) or (o.startswith("sw:") and ":m" in o) for o in ops)
         drops = any(o.startswith(("rs:", "as:s", "cc:s", "al:s")) for o in ops)
         return (stores and drops) or body.count("np:") >= 3
 
+    def stress_cases(self, rng, tier):
+        """free-running threads (no scheduler), the same kind of programs repeated.  Their outcome depends on real thread
+        timing, so they are SUPPORTING EVIDENCE ONLY: run in extra_stage, recorded in the evidence, never a VIOLATION."""
+        out = []
+        for i in range(8 if tier == "quick" else 60):
+            N = rng.choice([1, 2, 3]); mx = rng.choice([0, 1, 3]); T = rng.choice([2, 3, 4])
+            kind = rng.choice(["np", "nh"])
+            setup = chain(kind, rng.choice([1, 2, 3]), 0, 1, rng.randrange(K)) + ["np:2"]
+            workers = [[o for o in gen_worker(rng, rng.choice([4, 8, 12])) if not o.startswith("al:")] for _ in range(T)]
+            out.append("M%d:%d:%d:%d|%s" % (N, mx, S, 200 if tier == "quick" else 2000, "/".join([";".join(setup)] + [";".join(w) for w in workers])))
+        return out
+
     def extra_stage(self, ctx):
-        """thorough tier: the free-running stress cases once more under ThreadSanitizer (supporting evidence: real atomics,
-        real mutex; a report is a failure)."""
-        if ctx["tier"] != "thorough":
-            return
-        cases = [c for c in ctx["cases"] if c.startswith("M")]
-        if not cases:
-            return
-        exe = vlib.build_harness(name="refcnt_tsan", src="refcnt_h.cpp", san="tsan", link_lib=True,
-                                 extra_srcs=["/verif/harness/sched/sched.cpp"])
-        rc, out, err = vlib.run_lines(exe, "".join(c + "\n" for c in cases), timeout=1800,
-                                      env={"TSAN_OPTIONS": "halt_on_error=0:report_signal_unsafe=0"})
-        n_rep = err.count("WARNING: ThreadSanitizer")
-        ctx.setdefault("extra_coverage", {})["tsan_stress"] = {"cases": len(cases), "reports": n_rep, "rc": rc}
-        if n_rep or rc != 0 or any("stress bad" in l for l in out):
-            ctx["failures"].append({"kind": "crash", "signature": "crash: " + vlib.san_summary(err) + " (TSan stress)",
-                                    "case": cases[0], "detail": {"stderr": err[-3000:], "stdout": out[-5:]}})
+        """Supporting evidence only (timing-dependent, hence never part of the verdict): free-running multi-threaded stress
+        under ASan (every tier) and under ThreadSanitizer (thorough tier).  Results go to the evidence file."""
+        import random
+        cases = self.stress_cases(random.Random(ctx["seed"] * 7919 + 3), ctx["tier"])
+        text = "".join(c + "\n" for c in cases)
+        ev = {"cases": len(cases), "note": "free-running threads; supporting evidence only, not part of the verdict"}
+        try:
+            rc, out, err = vlib.run_lines(ctx["impl"], text, timeout=600)
+            ev["asan"] = {"rc": rc, "ok": sum(1 for l in out if l.endswith("stress ok")), "bad": [l for l in out if "stress ok" not in l][:5],
+                          "sanitizer": (vlib.san_summary(err) if rc != 0 else None)}
+            if ctx["tier"] == "thorough":
+                exe = vlib.build_harness(name="refcnt_tsan", src="refcnt_h.cpp", san="tsan", link_lib=True,
+                                         extra_srcs=["/verif/harness/sched/sched.cpp"])
+                rc, out, err = vlib.run_lines(exe, text, timeout=1800, env={"TSAN_OPTIONS": "halt_on_error=0:report_signal_unsafe=0"})
+                ev["tsan"] = {"rc": rc, "ok": sum(1 for l in out if l.endswith("stress ok")), "reports": err.count("WARNING: ThreadSanitizer")}
+        except Exception as ex:   # never let supporting evidence affect the verdict
+            ev["error"] = str(ex)[:300]
+        ctx.setdefault("extra_coverage", {})["stress_supporting_evidence"] = ev
+        if ev.get("asan", {}).get("bad") or ev.get("asan", {}).get("rc") or ev.get("tsan", {}).get("reports"):
+            vlib.log("[C10] NOTE: the timing-dependent stress run (supporting evidence) reported something: %s" % json.dumps(ev)[:600])
 
     def distribution(self, sc):
         d = {}
